@@ -17,6 +17,7 @@ from ..properties import (
     OpenVocabProperty, PatternProperty, ReferenceProperty, StringProperty,
     TimestampProperty, TypeProperty,
 )
+from ..registration import _validate_extension_type
 from ..registry import class_for_type
 from ..utils import NOW
 from .base import _DomainObject
@@ -868,6 +869,8 @@ def CustomObject(type='x-custom-type', properties=None, extension_name=None, is_
                     "Invalid extension name '%s': must be the id of an "
                     "extension definition" % extension_name,
                 )
+            # Refuse a bad name now: once the type is registered it is too late
+            _validate_extension_type(extension_name, '2.1')
             if class_for_type(extension_name, '2.1', 'extensions'):
                 raise DuplicateRegistrationError(
                     "Extension", extension_name,
